@@ -278,7 +278,8 @@ def run(ck):
         return float(e)
 
     # fixed corpus first (polar sites, two-fold pair stabilisers, 2-D polar), then the random pool
-    corpus = [(nm,) + gen.named(nm) for nm in ("polar", "hcp-oct-tet", "rect-polar2d", "honeycomb", "hcp")]
+    corpus = [(nm,) + gen.named(nm) for nm in ("polar", "hcp-oct-tet", "rect-polar2d", "honeycomb", "hcp")] + \
+             [("chiral-" + nm,) + sc.chiral_crystal(nm)[:2] for nm in ("p4", "P4/m", "P-3")]   # rotation axis without mirrors
     for label, crys, chem in itertools.chain(corpus, gen.pool(rng, ncrys, random_frac=0.55)):
         try:
             net = gen.percolating_network(crys, chem, rng, maxjumps=ck.n(30, 60))
